@@ -4,8 +4,11 @@ import (
 	"bytes"
 	"crypto/aes"
 	"crypto/cipher"
+	"crypto/elliptic"
 	crand "crypto/rand"
 	"crypto/rsa"
+	"fmt"
+	"math/big"
 
 	"github.com/cloudflare/circl/group"
 	"github.com/cloudflare/circl/oprf"
@@ -526,6 +529,143 @@ func c02Type5(c *h.Ctx, sizes []int, flipAll bool) {
 	}
 }
 
+// c02SuppliedBlinds: requests created through the fixed-blind entry points with blinds at the edges of the scalar range
+// (1, order-1, zero, non-canonical encodings of zero and of other values). The response is the one an issuer computes
+// for the request as sent — taken from circl directly, so that an issuer-side refusal cannot hide what the CLIENT does
+// with it. The rule is the same: finalization succeeds only with tokens that verify and belong to the request.
+func c02SuppliedBlinds(c *h.Ctx) {
+	sk, _ := oprf.DeriveKey(oprf.SuiteRistretto255, oprf.VerifiableMode, rnd(c, 32), nil)
+	iss := type5.NewBatchedPrivateIssuer(sk)
+	kid := iss.TokenKeyID()
+	srv := oprf.NewVerifiableServer(oprf.SuiteRistretto255, sk)
+	le := func(v *big.Int) []byte {
+		o := make([]byte, 32)
+		for i, x := range v.FillBytes(make([]byte, 32)) {
+			o[31-i] = x
+		}
+		return o
+	}
+	L, _ := new(big.Int).SetString("7237005577332262213973186563042994240857116359379907606001950938285454250989", 10)
+	one := big.NewInt(1)
+	edge := [][]byte{le(one), le(new(big.Int).Sub(L, one)), make([]byte, 32), le(L), le(new(big.Int).Lsh(L, 1)), le(new(big.Int).Add(L, one)), bytesFF(32)}
+	for ei, eb := range edge {
+		for pos := 0; pos < 2; pos++ {
+			chal := rnd(c, 20)
+			nonces := [][]byte{rnd(c, 32), rnd(c, 32)}
+			good := le(new(big.Int).SetBytes(rnd(c, 31)))
+			bl := [][]byte{good, good}
+			bl[pos] = eb
+			det := map[string]any{"type": 5, "blind": h.Hex(eb), "position": pos}
+			var st type5.BatchedPrivateTokenRequestState
+			var err error
+			pan, msg := h.Protect(func() {
+				st, err = type5.NewBatchedPrivateClient().CreateTokenRequestWithBlinds(chal, nonces, kid, iss.TokenKey(), bl)
+			})
+			c.Count("type5:supplied-blinds:edge", 1, fmt.Sprint(ei, pos))
+			if pan {
+				det["panic"] = msg
+				c.Violation("request creation with an in-range blind encoding panics", det)
+				continue
+			}
+			if err != nil {
+				continue // refused at creation: nothing is outstanding
+			}
+			// the response of an issuer that evaluates whatever it was sent
+			var resp []byte
+			h.Protect(func() {
+				els := make([]group.Element, 2)
+				for j := range els {
+					els[j] = group.Ristretto255.NewElement()
+					if els[j].UnmarshalBinary(st.Request().BlindedReq[j]) != nil {
+						return
+					}
+				}
+				ev, e := srv.Evaluate(&oprf.EvaluationRequest{Elements: els})
+				if e != nil {
+					return
+				}
+				var body []byte
+				for _, x := range ev.Elements {
+					xb, _ := x.MarshalBinaryCompress()
+					body = append(body, xb...)
+				}
+				pb, _ := ev.Proof.MarshalBinary()
+				resp = cat(quicwire.AppendVarint(nil, uint64(len(body))), body, pb)
+			})
+			if resp == nil {
+				continue
+			}
+			valid := func(i int, t tokens.Token) bool {
+				input := cat(u16b(5), nonces[i], sha256Bytes(chal), kid)
+				want, _ := srv.FullEvaluate(input)
+				return bytes.Equal(t.Marshal(), cat(input, want)) && iss.Verify(t) == nil
+			}
+			var o c02Out
+			o.pan, o.msg = h.Protect(func() { o.toks, o.err = st.FinalizeTokens(resp) })
+			c02Judge(c, "type5:supplied-blinds:finalize", o, valid, 2, false, det)
+			if honest, e := iss.Evaluate(st.Request()); e == nil {
+				var o2 c02Out
+				o2.pan, o2.msg = h.Protect(func() { o2.toks, o2.err = st.FinalizeTokens(honest) })
+				c02Judge(c, "type5:supplied-blinds:finalize-honest-issuer", o2, valid, 2, false, det)
+			}
+		}
+	}
+	// type 1
+	sk1, _ := oprf.DeriveKey(oprf.SuiteP384, oprf.VerifiableMode, rnd(c, 32), nil)
+	iss1 := type1.NewBasicPrivateIssuer(sk1)
+	kid1 := iss1.TokenKeyID()
+	srv1 := oprf.NewVerifiableServer(oprf.SuiteP384, sk1)
+	N := elliptic.P384().Params().N
+	be := func(v *big.Int) []byte { return v.FillBytes(make([]byte, 48)) }
+	for ei, eb := range [][]byte{be(one), be(new(big.Int).Sub(N, one)), make([]byte, 48), be(N), be(new(big.Int).Add(N, one)), bytesFF(48)} {
+		chal, nonce := rnd(c, 20), rnd(c, 32)
+		det := map[string]any{"type": 1, "blind": h.Hex(eb)}
+		var st type1.BasicPrivateTokenRequestState
+		var err error
+		pan, msg := h.Protect(func() {
+			st, err = type1.NewBasicPrivateClient().CreateTokenRequestWithBlind(chal, nonce, kid1, iss1.TokenKey(), eb)
+		})
+		c.Count("type1:supplied-blinds:edge", 1, fmt.Sprint(ei))
+		if pan {
+			det["panic"] = msg
+			c.Violation("request creation with an in-range blind encoding panics", det)
+			continue
+		}
+		if err != nil {
+			continue
+		}
+		var resp []byte
+		h.Protect(func() {
+			e := group.P384.NewElement()
+			if e.UnmarshalBinary(st.Request().BlindedReq) != nil {
+				return
+			}
+			ev, er := srv1.Evaluate(&oprf.EvaluationRequest{Elements: []oprf.Blinded{e}})
+			if er != nil {
+				return
+			}
+			xb, _ := ev.Elements[0].MarshalBinaryCompress()
+			pb, _ := ev.Proof.MarshalBinary()
+			resp = cat(xb, pb)
+		})
+		if resp == nil {
+			continue
+		}
+		input := cat(u16b(1), nonce, sha256Bytes(chal), kid1)
+		want, _ := srv1.FullEvaluate(input)
+		valid := func(_ int, t tokens.Token) bool { return bytes.Equal(t.Marshal(), cat(input, want)) }
+		var o c02Out
+		o.pan, o.msg = h.Protect(func() {
+			t, e := st.FinalizeToken(resp)
+			o.err = e
+			if e == nil {
+				o.toks = []tokens.Token{t}
+			}
+		})
+		c02Judge(c, "type1:supplied-blinds:finalize", o, valid, 1, false, det)
+	}
+}
+
 func runC02(c0 *h.Ctx) {
 	c0.Parallel(5, func(part int, c *h.Ctx) {
 		switch part {
@@ -554,6 +694,7 @@ func runC02(c0 *h.Ctx) {
 				sizes = []int{1, 2, 3, 4, 5, 8, 16}
 			}
 			c02Type5(c, sizes, c.Thorough())
+			c02SuppliedBlinds(c)
 		case 4:
 			// an issuer key of another size than 2048 bits: finalization must fail or return a verifying token
 			k3, err := rsa.GenerateKey(crand.Reader, 3072)
